@@ -14,33 +14,42 @@ theorem c16_br_sub_bp (w : World) (src : ClassSrc) (n : String) (h : n ∈ bases
   obtain ⟨p, hp, rfl⟩ := List.mem_map.mp h
   exact List.mem_map_of_mem (List.mem_filter.mp hp).1
 
+theorem c16_irc_sub_const (w : World) (src : ClassSrc) (n : String) (h : n ∈ inheritedRequiredConsts w src) :
+    n ∈ constNamesD w src := by
+  unfold inheritedRequiredConsts at h
+  exact (List.mem_filter.mp h).1
+
 /-- membership in the required part of Define's `make_signature` -/
 theorem c16_mem_sig_req (w : World) (src : ClassSrc) (n : String) :
     n ∈ (sigOf w src).req ↔
       (n ∉ constNamesD w src ∧ covered w src n = true ∧ n ∈ requiredOf w src) := by
   have hb := c16_br_sub_bp w src n
-  unfold sigOf requiredOf covered constNamesD
+  have hi := c16_irc_sub_const w src n
+  unfold sigOf requiredOf covered
+  unfold constNamesD at hi ⊢
   simp only [mem_dedupStr, List.mem_append, List.mem_filter, List.mem_map, Bool.and_eq_true, Bool.or_eq_true,
-    Bool.not_eq_true', List.contains_eq_mem, decide_eq_true_eq, decide_eq_false_iff_not] at hb ⊢
+    Bool.not_eq_true', List.contains_eq_mem, decide_eq_true_eq, decide_eq_false_iff_not] at hb hi ⊢
   generalize (∃ a, a ∈ basesParams w src ∧ a.1 = n) = B at hb ⊢
   generalize (∃ a, a ∈ ownMembers src.entries ∧ a.1 = n) = A
-  generalize (n ∈ requiredOwn src) = R
+  generalize (n ∈ requiredEff w src) = R
   generalize (n ∈ basesRequired w src) = Q at hb ⊢
-  generalize (∃ a, a ∈ constantsOf (resolvedFields w src) ∧ a.1 = n) = C
-  by_cases hA : A <;> by_cases hB : B <;> by_cases hR : R <;> by_cases hQ : Q <;> by_cases hC : C <;> simp_all
+  generalize (n ∈ inheritedRequiredConsts w src) = I at hi ⊢
+  generalize (∃ a, a ∈ constantsOf (resolvedFields w src) ∧ a.1 = n) = C at hi ⊢
+  by_cases hA : A <;> by_cases hB : B <;> by_cases hR : R <;> by_cases hQ : Q <;> by_cases hC : C <;>
+    by_cases hI : I <;> simp_all
 
 /-- membership in the `= None` part of Define's `make_signature`, for a class whose definition passes `sigCheck`
     (no name in both parts) it is the complement of `req` among the covered non-constant names -/
 theorem c16_mem_sig_opt (w : World) (src : ClassSrc) (n : String) :
     n ∈ (sigOf w src).opt ↔
-      (n ∉ constNamesD w src ∧ n ∉ requiredOwn src ∧
+      (n ∉ constNamesD w src ∧ n ∉ requiredEff w src ∧
         ((n ∈ (basesParams w src).map (·.1) ∧ n ∉ basesRequired w src) ∨ n ∈ (ownMembers src.entries).map (·.1))) := by
   unfold sigOf constNamesD
   simp only [mem_dedupStr, List.mem_append, List.mem_filter, List.mem_map, Bool.and_eq_true,
     Bool.not_eq_true', List.contains_eq_mem, decide_eq_false_iff_not]
   generalize (∃ a, a ∈ basesParams w src ∧ a.1 = n) = B
   generalize (∃ a, a ∈ ownMembers src.entries ∧ a.1 = n) = A
-  generalize (n ∈ requiredOwn src) = R
+  generalize (n ∈ requiredEff w src) = R
   generalize (n ∈ basesRequired w src) = Q
   generalize (∃ a, a ∈ constantsOf (resolvedFields w src) ∧ a.1 = n) = C
   by_cases hA : A <;> by_cases hB : B <;> by_cases hR : R <;> by_cases hQ : Q <;> by_cases hC : C <;> simp_all
@@ -89,15 +98,18 @@ theorem c16_sigD_names (w : World) (src : ClassSrc) (n : String) :
   have hb := c16_br_sub_bp w src n
   have hmem : n ∈ (sigParamsD (sigOf w src)).map (·.name) ↔ (n ∈ (sigOf w src).req ∨ n ∈ (sigOf w src).opt) := by
     simp [sigParamsD, List.map_append, List.map_map, Function.comp_def]
+  have hi := c16_irc_sub_const w src n
   rw [hmem, hreq, hopt]
   unfold covered requiredOf
   simp only [mem_dedupStr, List.mem_append, Bool.or_eq_true, List.contains_eq_mem, decide_eq_true_eq]
   generalize (n ∈ (basesParams w src).map (·.1)) = B at hb ⊢
   generalize (n ∈ (ownMembers src.entries).map (·.1)) = A
-  generalize (n ∈ requiredOwn src) = R
+  generalize (n ∈ requiredEff w src) = R
   generalize (n ∈ basesRequired w src) = Q at hb ⊢
-  generalize (n ∈ constNamesD w src) = C
-  by_cases hA : A <;> by_cases hB : B <;> by_cases hR : R <;> by_cases hQ : Q <;> by_cases hC : C <;> simp_all
+  generalize (n ∈ inheritedRequiredConsts w src) = I at hi ⊢
+  generalize (n ∈ constNamesD w src) = C at hi ⊢
+  by_cases hA : A <;> by_cases hB : B <;> by_cases hR : R <;> by_cases hQ : Q <;> by_cases hC : C <;>
+    by_cases hI : I <;> simp_all
 
 theorem c16_const_sub_keys (w : World) (src : ClassSrc) (n : String) (h : n ∈ constNamesD w src) :
     n ∈ (allFieldsOf w src).map (·.1) := by
@@ -168,27 +180,13 @@ theorem c16_stubD_required (w : World) (src : ClassSrc) (n : String) (hcov : cov
     rw [this]
     rfl
 
-/-- the `**` clause: exact characterisation over Define's worlds -/
+/-- the `**` clause over Define's worlds: stub, `__signature__` and constructor are one and the same -/
 theorem c16_stubD_kw_iff (dflt : Bool) (w : World) (src : ClassSrc) :
-    stubKwD dflt w src = (admitsD dflt w src || inheritedOnD dflt w src) := by
-  unfold stubKwD admitsD inheritedOnD sigKwD addlAttr
-  cases hd : src.addl with
-  | some b => cases b <;> cases dflt <;> simp
-  | none =>
-    cases dflt <;> cases hl : inheritedOpt w (·.ownAddl) (mroTail w src) with
-    | none => simp
-    | some b => cases b <;> simp
+    stubKwD dflt w src = admitsD dflt w src := by
+  unfold stubKwD admitsD sigKwD
+  cases (addlAttr w src).getD dflt <;> rfl
 
-theorem c16_stubD_sigkw_iff (dflt : Bool) (w : World) (src : ClassSrc) :
-    (stubKwD dflt w src == sigKwD dflt src) = !(inheritedOnD dflt w src || inheritedOffD dflt w src) := by
-  unfold stubKwD inheritedOnD inheritedOffD sigKwD addlAttr
-  cases hd : src.addl with
-  | some b => cases b <;> cases dflt <;> simp
-  | none =>
-    cases dflt <;> cases hl : inheritedOpt w (·.ownAddl) (mroTail w src) with
-    | none => simp
-    | some b => cases b <;> simp
-
-theorem c16_sigKwD_true (w : World) (src : ClassSrc) : sigKwD true src = (sigOf w src).kwargs := rfl
+theorem c16_stubD_sigkw (dflt : Bool) (w : World) (src : ClassSrc) :
+    stubKwD dflt w src = sigKwD dflt w src := rfl
 
 end Typedpy.StubD
